@@ -217,7 +217,7 @@ def histories(ctx):
                 v = comp.read_rv(R)
                 return st, comp.eval_rv(desc['reward'], v), bool(R.z())
             kind, val, mlog = R.outcome(out)
-            if kind != 'ok' or val != (nxt, rwd, done) or impl.norm_log(mlog) != impl.norm_log(log):
+            if kind != 'ok' or not core.same(val, (nxt, rwd, done)) or impl.norm_log(mlog) != impl.norm_log(log):
                 ctx.disagreement('a functional step after a history of other calls: implementation and (stateless) model differ', dict(case, action=envs.ACTS[a].name, model_kind=kind))
     answers = ctx.model(oreqs)
     if answers is not None:
